@@ -68,7 +68,7 @@ IntegrateWF(e) ==
                          /\ \A k \in DOMAIN e.ents :
                               LET S == FacetSimplices(Pts(e, e.ents[k])) J2 == SimplexJacSq(S[1]) IN
                               /\ J2 <= 32768 /\ \A s \in DOMAIN S : SimplexJacSq(S[s]) = J2
-                              /\ IPow(Max2(MaxAbsCoord(e.p), 1), 2 * MDeg(e.alpha)) * J2 <= 67108864
+                              /\ IPow(Max2(MaxAbsCoord(e.p), 1), 2 * MDeg(e.alpha)) * J2 <= 16777216
   /\ IPow(Max2(MaxAbsCoord(e.p), 1), MDeg(e.alpha) + MeshDim(e.kind)) < 1073741824 \div 64
   /\ e.oracle \in {"cells", "sq"} => MDeg(e.alpha) + EntDim(e) <= 8
   /\ e.scale ^ (MDeg(e.alpha) + EntDim(e)) <= 65536
